@@ -80,7 +80,8 @@ func (r *rng) bool() bool        { return r.next()&1 == 1 }
 
 // ---- transports ----
 
-var errBoom = errors.New("boom")
+var errBoom = errors.New("boom")       // failing source transport
+var errDst = errors.New("dstboom")     // failing destination
 
 // chunkReader serves data in fixed chunks of k bytes (k == 0: one chunk); a Read returns at most the
 // rest of the current chunk, then fin.
@@ -129,6 +130,8 @@ func classify(err error) string {
 		return "ueof"
 	case err == errBoom:
 		return "fail"
+	case err == errDst:
+		return "dfail"
 	case err == ws.ErrHeaderLengthMSB:
 		return "msb"
 	case err == ws.ErrHeaderLengthUnexpected:
